@@ -23,6 +23,7 @@ pub enum Hist {
     WriteIface,
     Incremental,
     AbandonThenRedo,
+    AbandonThenOther,
 }
 
 impl Hist {
@@ -34,6 +35,7 @@ impl Hist {
             Hist::WriteIface => "write-interface",
             Hist::Incremental => "updater-incremental",
             Hist::AbandonThenRedo => "abandon-then-redo",
+            Hist::AbandonThenOther => "abandon-then-other",
         }
     }
 }
@@ -84,6 +86,28 @@ pub async fn updater_incremental(zone: &Zone, from: &ZoneC, to: &ZoneC, rng: &mu
         up.apply(ZoneUpdate::AddRecord(urec(&name, t, ttl, &d))).await.map_err(|e| format!("AddRecord: {:?}", e))?;
     }
     let s = to.get(&to.apex, T_SOA).ok_or("no soa")?;
+    up.apply(ZoneUpdate::Finished(urec(&s.name, T_SOA, s.ttl, &s.rdatas[0]))).await.map_err(|e| format!("Finished: {:?}", e))?;
+    Ok(())
+}
+
+/// An update that empties some names (every record of theirs deleted one by one) is
+/// abandoned; a later update that touches none of them commits. Content is unchanged.
+pub async fn abandon_deletes_then_commit(zone: &Zone, z: &ZoneC, rng: &mut Rng) -> Result<(), String> {
+    {
+        let mut up = ZoneUpdater::<Name<Bytes>>::new(zone.clone()).await.map_err(|e| format!("updater new: {:?}", e))?;
+        let mut recs = z.records();
+        rng.shuffle(&mut recs);
+        let victims: Vec<Vec<u8>> = z.names().into_iter().filter(|n| !z.is_apex(n) && rng.chance(1, 2)).map(|n| w::lower(&n)).collect();
+        for (o, t, ttl, d) in recs {
+            if t == T_SOA || !victims.contains(&w::lower(&o)) {
+                continue;
+            }
+            up.apply(ZoneUpdate::DeleteRecord(urec(&o, t, ttl, &d))).await.map_err(|e| format!("DeleteRecord: {:?}", e))?;
+        }
+        // dropped without Finished: rolled back
+    }
+    let mut up = ZoneUpdater::<Name<Bytes>>::new(zone.clone()).await.map_err(|e| format!("updater new (2): {:?}", e))?;
+    let s = z.get(&z.apex, T_SOA).ok_or("no soa")?;
     up.apply(ZoneUpdate::Finished(urec(&s.name, T_SOA, s.ttl, &s.rdatas[0]))).await.map_err(|e| format!("Finished: {:?}", e))?;
     Ok(())
 }
@@ -196,6 +220,11 @@ async fn build(h: Hist, z: &ZoneC, prev: &ZoneC, rng: &mut Rng, seed: u64) -> Re
             write_iface(&zone, prev, false).await?;
             Ok(zone)
         }
+        Hist::AbandonThenOther => {
+            let zone = build_with_builder(z)?;
+            abandon_deletes_then_commit(&zone, z, rng).await?;
+            Ok(zone)
+        }
     }
 }
 
@@ -205,7 +234,7 @@ fn one_zone(c: &mut Ctx, rt: &tokio::runtime::Runtime, fam: &str, idx: u64) {
     let prev = gen_zone(&mut rng, 9);
     let qnames = query_names(&mut rng, &z);
     let ex = |h: Hist| json!({"history": h.name(), "zone": z.records().iter().map(|(o, t, ttl, d)| format!("{} {} {} {}", w::name_text(o), ttl, t, hex(d))).collect::<Vec<_>>()});
-    let hists = [Hist::Builder, Hist::Text, Hist::UpdaterFull, Hist::WriteIface, Hist::Incremental, Hist::AbandonThenRedo];
+    let hists = [Hist::Builder, Hist::Text, Hist::UpdaterFull, Hist::WriteIface, Hist::Incremental, Hist::AbandonThenRedo, Hist::AbandonThenOther];
     for h in hists {
         let built = ctx::catch(|| rt.block_on(build(h, &z, &prev, &mut rng, idx)));
         let zone = match built {
@@ -292,7 +321,7 @@ fn one_zone(c: &mut Ctx, rt: &tokio::runtime::Runtime, fam: &str, idx: u64) {
         }
     }
     if c.want_sample() && idx % 13 == 3 {
-        c.sample(json!({"zone": z.records().iter().take(8).map(|(o, t, ttl, _)| format!("{} {} TYPE{}", w::name_text(o), ttl, t)).collect::<Vec<_>>(), "queries": qnames.len() * QTYPES.len(), "histories": 6}));
+        c.sample(json!({"zone": z.records().iter().take(8).map(|(o, t, ttl, _)| format!("{} {} TYPE{}", w::name_text(o), ttl, t)).collect::<Vec<_>>(), "queries": qnames.len() * QTYPES.len(), "histories": 7}));
     }
 }
 
@@ -311,7 +340,7 @@ pub fn run(c: &mut Ctx) {
         for k in ["data", "cname", "nodata", "nxdomain", "referral", "out-of-zone"] {
             c.floor(&format!("expected_{}", k), 10);
         }
-        for h in ["builder", "zonefile", "updater-replace", "write-interface", "updater-incremental", "abandon-then-redo"] {
+        for h in ["builder", "zonefile", "updater-replace", "write-interface", "updater-incremental", "abandon-then-redo", "abandon-then-other"] {
             c.floor(&format!("zones_{}", h), 10);
         }
     }
